@@ -55,6 +55,7 @@ func NewLoadBalancer(targets TargetList) *LoadBalancer {
 		all:     targets,
 	}
 
+	verifEvent("lb-new", lb, lb.all)
 	lb.beginHealthChecks()
 	return lb
 }
@@ -101,6 +102,7 @@ func (lb *LoadBalancer) MarkAllHealthy() {
 func (lb *LoadBalancer) Dispose() {
 	lb.lock.Lock()
 	defer lb.lock.Unlock()
+	verifEvent("lb-dispose", lb)
 
 	lb.all.Dispose()
 }
@@ -142,6 +144,7 @@ func (lb *LoadBalancer) claimTarget(req *http.Request) (*Target, *http.Request, 
 	defer lb.lock.Unlock()
 
 	target := lb.nextTarget()
+	verifEvent("lb-claim", lb, target, req)
 	if target == nil {
 		return nil, nil, ErrorNoHealthyTargets
 	}
@@ -175,4 +178,5 @@ func (lb *LoadBalancer) updateHealthyTargets() {
 			lb.healthy = append(lb.healthy, target)
 		}
 	}
+	verifEvent("rotation", lb, lb.healthy)
 }
